@@ -586,6 +586,28 @@ func runAll(c *run.Ctx) {
 			}
 		})
 	}
+	// curves of every length 2..140 (and around 256, 512, 1024) followed by further curves
+	sidx := 0
+	sizes := []int{254, 255, 256, 257, 258, 511, 512, 513, 1023, 1024, 1025}
+	for sn := 2; sn <= 140; sn++ {
+		sizes = append(sizes, sn)
+	}
+	for _, sn := range sizes {
+		for _, ct := range model.CTypes {
+			for _, kind := range []int{0, 2} {
+				sidx++
+				sn, ct, kind := sn, ct, kind
+				c.Case("sized", sidx, func(k *run.K) {
+					t := model.SizedTree(kind, sn, ct)
+					k.Nontrivial(fmt.Sprint("sized", kind, sn, ct))
+					for v := 0; v < 4; v++ {
+						one(k, t, drawOpts(k.Rng, t, 0, (v*5+sidx)%16))
+						k.Count("encodings", 1)
+					}
+				})
+			}
+		}
+	}
 	// rejection families
 	for i := 0; i < c.N(1500, 20000); i++ {
 		c.Case("reject", i, func(k *run.K) {
